@@ -65,6 +65,8 @@ func halvingExact(min, max float64, z int64) bool {
 
 type hrange struct{ min, max float64 }
 
+const c17QuickRanges = 7
+
 var c17Ranges = []hrange{{-256, 256}, {0, 1024}, {-100, 300.5}, {0, 1000.0 / 3}, {-33554432, 33554432}, {5, 5 + 1.0/1024}, {-1, 7}}
 
 func init() {
@@ -77,14 +79,24 @@ func init() {
 			"for ranges whose repeated float halving is not exact, an altitude within 64 ulp of a cell boundary may fall in either neighbouring cell (undecided band)",
 		},
 		Phases: func(tier string) []engine.Phase {
-			vzs := []int64{0, 1, 7, 16, 24, 25, 26, 30, 35}
+			vzs := alpha.Zedge
 			ozs := []int64{0, 1, 2, 3, 4, 5, 7, 8, 9, 12, 20, 35}
+			allCellsUpTo := int64(6)
+			bzs := []int64{0, 1, 2, 3, 4, 5, 6, 12, 20}
+			sharded := false
 			if tier == "thorough" {
 				vzs = alpha.Zall
 				ozs = alpha.Zall
+				allCellsUpTo = 9
+				bzs = []int64{0, 1, 2, 3, 4, 5, 6, 7, 8, 9, 12, 20, 30, 35}
+				sharded = true
+				if len(c17Ranges) == c17QuickRanges {
+					// more ranges: negative-only, tiny, huge, a range starting at a non-representable decimal, one-ulp-wide steps
+					c17Ranges = append(c17Ranges, hrange{-1000, -10}, hrange{0.1, 0.7}, hrange{-1e-3, 1e-3}, hrange{0, 1e9}, hrange{-8192.5, 8191.25}, hrange{1, 3})
+				}
 			}
 			return []engine.Phase{
-				{Name: "voxel-to-bits", Serial: true, Bounds: engine.Bounds{InputDev: -1},
+				{Name: "voxel-to-bits", Serial: !sharded, ShardDepth: 2, Bounds: engine.Bounds{InputDev: -1},
 					Rule: "full product v x f in VIdx(v) u cells around each range end x output zoom x range: the vertical IDs are exactly the contiguous run [idx(bottom), idx(top)] of the exact subdivision, within 0..2^z-1 (clamped); spatial-ID API agrees when h = v; non-trivial = distinct cases whose run has >= 2 cells or is clamped",
 					Body: func(c *engine.Ctx) {
 						v := vzs[c.In("v", len(vzs))]
@@ -160,14 +172,13 @@ func init() {
 							c.Violation("C17:voxel-to-bits:run-differs-from-exact-subdivision", d)
 						}
 					}},
-				{Name: "bits-to-voxels", Serial: true, Bounds: engine.Bounds{InputDev: -1},
-					Rule: "full product bit zoom (0..6: all cells; above: edge cells) x cell x output vertical zoom x range: the returned vertical indices form a contiguous run covering the cell's altitude interval and not exceeding it by more than one index; non-trivial = distinct cases whose run has >= 2 indices",
+				{Name: "bits-to-voxels", Serial: !sharded, ShardDepth: 2, Bounds: engine.Bounds{InputDev: -1},
+					Rule: "full product bit zoom (0..6, thorough 0..9: all cells; above: edge cells of zooms 12, 20, thorough also 30, 35) x cell x output vertical zoom x range: the returned vertical indices form a contiguous run covering the cell's altitude interval and not exceeding it by more than one index; non-trivial = distinct cases whose run has >= 2 indices",
 					Body: func(c *engine.Ctx) {
-						bzs := []int64{0, 1, 2, 3, 4, 5, 6, 12, 20}
 						bz := bzs[c.In("bitZoom", len(bzs))]
 						n := int64(1) << uint(bz)
 						var cells []int64
-						if bz <= 6 {
+						if bz <= allCellsUpTo {
 							cells = alpha.Seq(0, n-1)
 						} else {
 							cells = []int64{0, 1, n / 2, n - 2, n - 1}
